@@ -565,7 +565,7 @@ pub fn run_seed(vseed: u64, prop: &str, idx: u64) -> u64 {
 pub fn runs_for(prop: &str, tier: Tier) -> u64 {
     let batch = cfg!(feature = "batch");
     let (q, t): (u64, u64) = match prop {
-        "C01" => (150_000, 3_000_000),
+        "C01" => (100_000, 2_000_000),
         "C02" => (200_000, 4_000_000),
         "C03" => (150_000, 3_000_000),
         "C04" => (300_000, 6_000_000),
@@ -668,6 +668,14 @@ fn giant_trace_program(rng: &mut Rng, cfg: &Config) -> Vec<Op> {
     for _ in 0..n {
         match rng.below(5) {
             0 => p.push(Op::Clear { c: gen_colour(rng) }),
+            1 if rng.chance(1, 3) && lw as u64 * lh as u64 > 70_000 => {
+                // pixel counts around 2^16 / 2^24 / 2^31
+                let target: u64 = *rng.pick(&[65_535u64, 65_536, 65_537, 1 << 24, (1 << 24) + 1, (1u64 << 31) - 1, 1 << 31, (1u64 << 31) + 1]);
+                let target = target.min(lw as u64 * lh as u64);
+                let w = (*rng.pick(&[1u64, 2, 255, 256, 257, 65_535])).min(lw as u64).min(target).max(1);
+                let h = (target / w).max(1).min(lh as u64);
+                p.push(Op::FillSolid { rect: Rect { x: 0, y: 0, w: w as u32, h: h as u32 }, c: gen_colour(rng) });
+            }
             1 => {
                 let w = 1 + rng.below(lw as u64) as u32;
                 let h = 1 + rng.below(lh as u64) as u32;
@@ -722,11 +730,11 @@ pub fn run_index(prop: &str, idx: u64, vseed: u64, tier: Tier) -> RunResult {
                 cfg.oy = 0;
                 program = giant_trace_program(&mut rng, &cfg);
             } else {
-                let po = ProgOpts { min_ops: 1, max_ops: 30, weights: ALL_DRAW, oob: Oob::None, rect_any: false };
+                let po = ProgOpts { other_pct: if rng.chance(1, 4) { 12 } else { 0 }, min_ops: 1, max_ops: 30, weights: ALL_DRAW, oob: Oob::None, rect_any: false };
                 let mut p = gen_draw_program(&mut rng, &cfg, cfg.orient, &po);
                 if rng.chance(1, 8) {
                     // restart in the middle: new window / orientation / options, memory survives
-                    let po2 = ProgOpts { min_ops: 1, max_ops: 10, ..po.clone() };
+                    let po2 = ProgOpts { other_pct: 0, min_ops: 1, max_ops: 10, ..po.clone() };
                     p.truncate(8);
                     let re = gen_reinit(&mut rng, &cfg);
                     let cfg2 = cfg.after_reinit(&re);
@@ -739,18 +747,18 @@ pub fn run_index(prop: &str, idx: u64, vseed: u64, tier: Tier) -> RunResult {
         }
         "C02" => {
             let cfg = gen_config(&mut rng, &CfgOpts::default());
-            let program = gen_draw_program(&mut rng, &cfg, cfg.orient, &ProgOpts { min_ops: 1, max_ops: 12, weights: [0, 0, 5, 3, 3, 1], oob: Oob::Full, rect_any: true });
+            let program = gen_draw_program(&mut rng, &cfg, cfg.orient, &ProgOpts { other_pct: 0, min_ops: 1, max_ops: 12, weights: [0, 0, 5, 3, 3, 1], oob: Oob::Full, rect_any: true });
             one(&mut r, ReplayCase::Display(mk_case(prop, seed, cfg, program)));
         }
         "C03" => {
             let giant = rng.chance(1, 10);
             let cfg = gen_config(&mut rng, &CfgOpts { giant, ..CfgOpts::default() });
-            let program = gen_draw_program(&mut rng, &cfg, cfg.orient, &ProgOpts { min_ops: 1, max_ops: 4, weights: [0, 0, 1, 0, 0, 0], oob: Oob::None, rect_any: false });
+            let program = gen_draw_program(&mut rng, &cfg, cfg.orient, &ProgOpts { other_pct: 0, min_ops: 1, max_ops: 4, weights: [0, 0, 1, 0, 0, 0], oob: Oob::None, rect_any: false });
             one(&mut r, ReplayCase::Display(mk_case(prop, seed, cfg, program)));
         }
         "C04" => {
             let cfg = gen_config(&mut rng, &CfgOpts::default());
-            let program = gen_draw_program(&mut rng, &cfg, cfg.orient, &ProgOpts { min_ops: 1, max_ops: 10, weights: [0, 0, 0, 1, 0, 0], oob: Oob::None, rect_any: true });
+            let program = gen_draw_program(&mut rng, &cfg, cfg.orient, &ProgOpts { other_pct: 0, min_ops: 1, max_ops: 10, weights: [0, 0, 0, 1, 0, 0], oob: Oob::None, rect_any: true });
             one(&mut r, ReplayCase::Display(mk_case(prop, seed, cfg, program)));
         }
         "C05" => {
@@ -854,10 +862,10 @@ pub fn run_index(prop: &str, idx: u64, vseed: u64, tier: Tier) -> RunResult {
                     }
                 }
                 let po = match style {
-                    0 => ProgOpts { min_ops: 1, max_ops: 10, weights: ALL_DRAW, oob: Oob::None, rect_any: false },
-                    1 => ProgOpts { min_ops: 1, max_ops: 8, weights: [0, 0, 5, 3, 3, 1], oob: Oob::Full, rect_any: true },
-                    2 => ProgOpts { min_ops: 1, max_ops: 6, weights: [0, 0, 1, 0, 0, 0], oob: Oob::Negative, rect_any: false },
-                    _ => ProgOpts { min_ops: 1, max_ops: 8, weights: [1, 2, 2, 4, 2, 1], oob: Oob::None, rect_any: true },
+                    0 => ProgOpts { other_pct: 0, min_ops: 1, max_ops: 10, weights: ALL_DRAW, oob: Oob::None, rect_any: false },
+                    1 => ProgOpts { other_pct: 0, min_ops: 1, max_ops: 8, weights: [0, 0, 5, 3, 3, 1], oob: Oob::Full, rect_any: true },
+                    2 => ProgOpts { other_pct: 0, min_ops: 1, max_ops: 6, weights: [0, 0, 1, 0, 0, 0], oob: Oob::Negative, rect_any: false },
+                    _ => ProgOpts { other_pct: 0, min_ops: 1, max_ops: 8, weights: [1, 2, 2, 4, 2, 1], oob: Oob::None, rect_any: true },
                 };
                 program.extend(gen_draw_program(&mut rng, &cfg_now, orient, &po));
             }
@@ -942,15 +950,15 @@ pub fn run_index(prop: &str, idx: u64, vseed: u64, tier: Tier) -> RunResult {
             let n_so = 1 + rng.below(6);
             for _ in 0..n_so {
                 if rng.chance(1, 2) {
-                    program.extend(gen_draw_program(&mut rng, &cfg, orient, &ProgOpts { min_ops: 1, max_ops: 3, weights: ALL_DRAW, oob: Oob::None, rect_any: false }));
+                    program.extend(gen_draw_program(&mut rng, &cfg, orient, &ProgOpts { other_pct: 0, min_ops: 1, max_ops: 3, weights: ALL_DRAW, oob: Oob::None, rect_any: false }));
                 }
                 orient = if rng.chance(1, 8) { orient } else { gen_orient(&mut rng) };
                 program.push(Op::SetOrientation { o: orient });
             }
             let po = if rng.coin() {
-                ProgOpts { min_ops: 1, max_ops: 8, weights: ALL_DRAW, oob: Oob::None, rect_any: false }
+                ProgOpts { other_pct: if rng.chance(1, 4) { 15 } else { 0 }, min_ops: 1, max_ops: 8, weights: ALL_DRAW, oob: Oob::None, rect_any: false }
             } else {
-                ProgOpts { min_ops: 1, max_ops: 8, weights: [0, 0, 5, 3, 3, 1], oob: Oob::Full, rect_any: true }
+                ProgOpts { other_pct: 0, min_ops: 1, max_ops: 8, weights: [0, 0, 5, 3, 3, 1], oob: Oob::Full, rect_any: true }
             };
             program.extend(gen_draw_program(&mut rng, &cfg, orient, &po));
             one(&mut r, ReplayCase::Display(mk_case(prop, seed, cfg, program)));
@@ -1002,7 +1010,12 @@ pub fn run_index(prop: &str, idx: u64, vseed: u64, tier: Tier) -> RunResult {
             if !crate::dut::pairing_compiles(cfg.model, cfg.transport) {
                 return r;
             }
-            one(&mut r, ReplayCase::Display(mk_case(prop, seed, cfg, Vec::new())));
+            let mut program = Vec::new();
+            if idx >= 10_752 && rng.chance(1, 4) && crate::dut::supported_today(cfg.model, cfg.transport.kind()) {
+                // the same contract for a second initialisation of the same hardware
+                program.push(gen_reinit(&mut rng, &cfg));
+            }
+            one(&mut r, ReplayCase::Display(mk_case(prop, seed, cfg, program)));
         }
         "C12" => run_c12(&mut r, prop, idx, seed, &mut rng, tier),
         "C13" => {
@@ -1024,7 +1037,7 @@ pub fn run_index(prop: &str, idx: u64, vseed: u64, tier: Tier) -> RunResult {
                         orient = cfg_now.orient;
                         program.push(re);
                     }
-                    2 => program.extend(gen_draw_program(&mut rng, &cfg_now, orient, &ProgOpts { min_ops: 1, max_ops: 1, weights: ALL_DRAW, oob: Oob::None, rect_any: false })),
+                    2 => program.extend(gen_draw_program(&mut rng, &cfg_now, orient, &ProgOpts { other_pct: 0, min_ops: 1, max_ops: 1, weights: ALL_DRAW, oob: Oob::None, rect_any: false })),
                     3 => {
                         orient = gen_orient(&mut rng);
                         program.push(Op::SetOrientation { o: orient });
@@ -1104,7 +1117,7 @@ pub fn run_index(prop: &str, idx: u64, vseed: u64, tier: Tier) -> RunResult {
                         };
                         program.push(Op::ScrollOffset { offset: o });
                     }
-                    _ => program.extend(gen_draw_program(&mut rng, &cfg, cfg.orient, &ProgOpts { min_ops: 1, max_ops: 1, weights: ALL_DRAW, oob: Oob::None, rect_any: false })),
+                    _ => program.extend(gen_draw_program(&mut rng, &cfg, cfg.orient, &ProgOpts { other_pct: 0, min_ops: 1, max_ops: 1, weights: ALL_DRAW, oob: Oob::None, rect_any: false })),
                 }
             }
             one(&mut r, ReplayCase::Display(mk_case(prop, seed, cfg, program)));
@@ -1130,7 +1143,7 @@ pub fn run_index(prop: &str, idx: u64, vseed: u64, tier: Tier) -> RunResult {
                     let small = Config { w: cfg_now.w.min(24), h: cfg_now.h.min(24), ..cfg_now.clone() };
                     let _ = small;
                     if cfg_now.w as u32 * cfg_now.h as u32 <= 4096 {
-                        program.extend(gen_draw_program(&mut rng, &cfg_now, cfg_now.orient, &ProgOpts { min_ops: 1, max_ops: 3, weights: [3, 2, 2, 2, 2, 0], oob: Oob::None, rect_any: false }));
+                        program.extend(gen_draw_program(&mut rng, &cfg_now, cfg_now.orient, &ProgOpts { other_pct: 0, min_ops: 1, max_ops: 3, weights: [3, 2, 2, 2, 2, 0], oob: Oob::None, rect_any: false }));
                     }
                     let re = gen_reinit(&mut rng, &cfg_now);
                     cfg_now = cfg_now.after_reinit(&re);
@@ -1151,9 +1164,9 @@ pub fn run_index(prop: &str, idx: u64, vseed: u64, tier: Tier) -> RunResult {
             let cfg = gen_config(&mut rng, &CfgOpts { giant: false, max_window: 160, ..CfgOpts::default() });
             let style = rng.below(3);
             let po = match style {
-                0 => ProgOpts { min_ops: 1, max_ops: 8, weights: [0, 0, 1, 0, 0, 0], oob: Oob::None, rect_any: false },
-                1 => ProgOpts { min_ops: 1, max_ops: 8, weights: [0, 0, 2, 2, 2, 1], oob: Oob::None, rect_any: true },
-                _ => ProgOpts { min_ops: 1, max_ops: 8, weights: [0, 0, 3, 1, 1, 1], oob: Oob::None, rect_any: false },
+                0 => ProgOpts { other_pct: 0, min_ops: 1, max_ops: 8, weights: [0, 0, 1, 0, 0, 0], oob: Oob::None, rect_any: false },
+                1 => ProgOpts { other_pct: 0, min_ops: 1, max_ops: 8, weights: [0, 0, 2, 2, 2, 1], oob: Oob::None, rect_any: true },
+                _ => ProgOpts { other_pct: 0, min_ops: 1, max_ops: 8, weights: [0, 0, 3, 1, 1, 1], oob: Oob::None, rect_any: false },
             };
             let program = gen_draw_program(&mut rng, &cfg, cfg.orient, &po);
             one(&mut r, ReplayCase::Display(mk_case(prop, seed, cfg, program)));
@@ -1179,7 +1192,7 @@ fn run_c12(r: &mut RunResult, prop: &str, idx: u64, seed: u64, rng: &mut Rng, ti
             let n_ops = 3 + rg.below(12);
             for _ in 0..n_ops {
                 match rg.weighted(&[10, 2, 1, 1, 1, 1]) {
-                    0 => program.extend(gen_draw_program(&mut rg, &cfg, orient, &ProgOpts { min_ops: 1, max_ops: 1, weights: ALL_DRAW, oob: Oob::None, rect_any: false })),
+                    0 => program.extend(gen_draw_program(&mut rg, &cfg, orient, &ProgOpts { other_pct: 0, min_ops: 1, max_ops: 1, weights: ALL_DRAW, oob: Oob::None, rect_any: false })),
                     1 => {
                         orient = gen_orient(&mut rg);
                         program.push(Op::SetOrientation { o: orient });
@@ -1239,11 +1252,11 @@ fn run_c12(r: &mut RunResult, prop: &str, idx: u64, seed: u64, rng: &mut Rng, ti
         // prefix program
         let n_pre = rng.below(3);
         for _ in 0..n_pre {
-            program.extend(gen_draw_program(rng, &cfg, orient, &ProgOpts { min_ops: 1, max_ops: 1, weights: ALL_DRAW, oob: Oob::None, rect_any: false }));
+            program.extend(gen_draw_program(rng, &cfg, orient, &ProgOpts { other_pct: 0, min_ops: 1, max_ops: 1, weights: ALL_DRAW, oob: Oob::None, rect_any: false }));
         }
         target_idx = program.len();
         match rng.below(12) {
-            0..=5 => program.extend(gen_draw_program(rng, &cfg, orient, &ProgOpts { min_ops: 1, max_ops: 1, weights: [2, 2, 3, 2, 2, 1], oob: Oob::None, rect_any: false })),
+            0..=5 => program.extend(gen_draw_program(rng, &cfg, orient, &ProgOpts { other_pct: 0, min_ops: 1, max_ops: 1, weights: [2, 2, 3, 2, 2, 1], oob: Oob::None, rect_any: false })),
             6 => {
                 orient = gen_orient(rng);
                 program.push(Op::SetOrientation { o: orient });
@@ -1280,7 +1293,7 @@ fn run_c12(r: &mut RunResult, prop: &str, idx: u64, seed: u64, rng: &mut Rng, ti
     if lw as u64 * lh as u64 <= px_budget(cfg_rec.transport) {
         program.push(Op::Clear { c: gen_colour(rng) });
     }
-    program.extend(gen_draw_program(rng, &cfg_rec, orient, &ProgOpts { min_ops: 1, max_ops: 3, weights: ALL_DRAW, oob: Oob::None, rect_any: false }));
+    program.extend(gen_draw_program(rng, &cfg_rec, orient, &ProgOpts { other_pct: 0, min_ops: 1, max_ops: 3, weights: ALL_DRAW, oob: Oob::None, rect_any: false }));
     let mut base = mk_case(prop, seed, cfg, program);
     base.mode = if target_init { "enumerate:init".into() } else { format!("enumerate:{}", target_idx) };
     let dry = exec_case(&base, &ExecOpt::default());
